@@ -159,7 +159,8 @@ func (a *remoteAuthorizer) Execute(ctx heimdall.Context, sub *subject.Subject) e
 		if entry, err := cch.Get(ctx.AppContext(), cacheKey); err == nil {
 			var ai authorizationInformation
 
-			if err = json.Unmarshal(entry, &ai); err == nil {
+			// the cached information may have been stored by a rule with other expressions
+			if err = json.Unmarshal(entry, &ai); err == nil && a.verify(ctx, ai.Payload) == nil {
 				logger.Debug().Msg("Reusing authorization information from cache")
 
 				authInfo = &ai
